@@ -1,7 +1,7 @@
 #!/usr/bin/env python3
 """Writes one prompt per property for a seeding sub-agent (only the property text
 and the path of its own scratch worktree), as used for the two rounds recorded
-in DESIGN.md 8.4.  usage: mk_seed_prompts.py <outdir> [round2|round3|round4|round5|round6]"""
+in DESIGN.md 8.4.  usage: mk_seed_prompts.py <outdir> [round2|..|round7]"""
 import json, sys
 out = sys.argv[1]
 tmpl = open('/verif/tools/seed_prompt.tmpl').read().replace('/tmp/seed/', out.rstrip('/') + '/')
@@ -33,6 +33,12 @@ ADDITIONAL CONSTRAINT (sixth, independent round): five earlier rounds have cover
 '''
 if len(sys.argv) > 2 and sys.argv[2] == 'round6':
     extra = extra6
+extra7 = '''
+
+ADDITIONAL CONSTRAINT (seventh, independent round): six earlier rounds have covered the anchor functions, their helpers, configuration paths, unusual inputs, rare command-line options, buffer boundaries and pairs of equivalent invocations, and automated differential checkers (random inputs, flags, directory trees and thread schedules, compared against independent models) exist over the rg binary and over the library crates. Choose a change whose manifestation depends on STATE CARRIED ACROSS ITEMS handled by the same object or the same process - the second or later file searched by the same searcher / printer / worker thread, the second root path, the second pattern or glob added to a builder, a reused buffer, cache, matcher or decoder whose leftover content matters, a counter or flag that is not reset (or is reset too early) between items - or on the INTERACTION BETWEEN TWO CRATES (a value produced in one crate and interpreted in another: line terminators, byte offsets, path prefixes, match ranges, binary-detection results, error kinds), so that a check which looks at one input with a freshly built object does not see it. The first item processed must behave exactly as before. Keep it a clean semantic violation of the property as stated with a deterministic demo, and describe in meta.json "needs" the exact sequence of items required.
+'''
+if len(sys.argv) > 2 and sys.argv[2] == 'round7':
+    extra = extra7
 for line in open('/verif/properties.jsonl'):
     p = json.loads(line)
     open('%s/%s.prompt.txt' % (out, p['id']), 'w').write(
